@@ -3,7 +3,7 @@
    SMARTS matching is RDKit (oracle [matches]).  The element-mass table statement is checked
    exhaustively on the implementation (661 rules), not proved here. *)
 From Coq Require Import List Bool Arith.
-From GBS Require Import Model.FF Src.SrcFF Model.FFSel Proofs.FFP.
+From GBS Require Import Model.FF Src.SrcFF Model.FFSel Proofs.FFP Src.SrcFFSel Proofs.FFSelSrcP.
 Import ListNotations.
 
 (* history-free: for EVERY history of (rule file, parameter file) requests, the assigner returned
@@ -43,6 +43,18 @@ Print Assumptions C20_equivariant.
 Theorem C20_refuses_partial : forall n, typing_guard (S n) = false.
 Proof. reflexivity. Qed.
 Print Assumptions C20_refuses_partial.
+
+(* tie T: the per-atom selection rebuilt from the decision REGENERATED from SMARTS_ASSIGNMENTS.get_type_assignments (Src/SrcFFSel.v; statement
+   skeleton checked: rules in file order, the first matching rule kept, replaced only by a strictly longer SMARTS text) is the selection of
+   the theorems above; the dedicated error is raised iff an atom is left without a rule; partially generated molecules are refused *)
+Theorem C20_selection_is_source : forall rs, best_src rs = best rs.
+Proof. exact best_is_source. Qed.
+Print Assumptions C20_selection_is_source.
+
+Theorem C20_error_and_refusal_are_source : forall nassigned natoms open_descriptors,
+  ff_incomplete nassigned natoms = negb (Nat.eqb nassigned natoms) /\ ff_refused (Nat.eqb open_descriptors 0) = negb (typing_guard open_descriptors).
+Proof. intros. split; [apply incomplete_is_source|apply refused_is_source]. Qed.
+Print Assumptions C20_error_and_refusal_are_source.
 
 Example C20_example :
   g_cls (fold_left (fun st q => cache_step st (fst q) (snd q)) [(None, None); (Some 1, Some 2); (None, None)] init) = Some (build None None).
